@@ -297,7 +297,9 @@ theorem declared_type_recorded (fuel : Nat) (span : Ast.Span) (st : Ast.ScalarTy
           simp only at hh
           split at hh
           · cases sym with
-            | error e => simp [M.map_ok] at hh
+            | error e =>
+              simp only [M.pure_bind_ok, M.pure_ok, Prod.mk.injEq] at hh
+              rw [hh.2]; exact Ext.refl _
             | ok id =>
               simp only [insertConstValue, M.modify_bind_ok, M.pure_ok, Prod.mk.injEq] at hh
               rw [hh.2]; exact Ext.refl _
